@@ -203,11 +203,16 @@ func vAppendCommit(L, E int) {
 	vReach("end")
 }
 
-//verif:check C06 stubs=env,valuefile,abslog reach=success,end desc="follower ack durability: success => everything up to prevLogIndex+carried entries is flushed, from any pre-state including a dirty tail" bounds="L=2, E=1 and E=0; all 64-bit values"
+//verif:check C06 stubs=env,valuefile,abslog reach=success,pipelined,end desc="follower ack durability: success => everything up to prevLogIndex+carried entries is flushed, from any pre-state including a dirty tail, whether or not the leader's next pipelined request is already buffered on the connection" bounds="L=2, E=1 and E=0; all 64-bit values; 0 or 2 bytes of a following request in the read buffer"
 func VH_C06_follower_ack_durable() {
 	E := vChoice(2)
 	c := vAppendSetup(2, E, true)
 	r, a, req := c.r, c.a, c.req
+	if c.avail == E && vChoice(2) == 1 {
+		// the leader pipelines: the beginning of its next request is already in the connection's read buffer
+		c.conn, _ = vMkConn(append(append([]byte(nil), c.script...), vBytes("next.request", 2)...))
+		vReach("pipelined")
+	}
 	res, _ := r.onAppendEntriesRequest(req, c.conn)
 	if res == success {
 		vReach("success")
